@@ -35,8 +35,9 @@ type Program struct {
 	Atoms    int
 	Features map[string]int
 	Clean    bool
-	Units    []Unit      // deletable statements of main.go (for minimisation), outermost first
-	Wheres   map[int]int // marker id -> 1-based line of main.go holding the y.Where(id) call
+	Units    []Unit       // deletable statements of main.go (for minimisation), outermost first
+	Wheres   map[int]int  // marker id -> 1-based line of main.go holding the y.Where(id) call
+	WhereV   map[int]bool // markers placed in expression position (y.WhereV)
 }
 
 // Unit is a statement of main.go given by its line range [From,To) and the statement form that produced it.
@@ -65,6 +66,7 @@ type gen struct {
 	lines    int
 	units    []Unit
 	wheres   map[int]int
+	wherev   map[int]bool
 	inDefer  int
 	noDyn    int
 	noStatic int
@@ -757,7 +759,19 @@ func (g *gen) restricted(fn func()) {
 func (g *gen) sWhere() {
 	id := len(g.wheres) + 1
 	g.wheres[id] = g.lines + 1
-	g.line("y.Where(%d)", id)
+	switch g.r.Intn(4) {
+	case 0:
+		// the marker sits in the tail of a statement, after a function literal
+		g.f("where:after-function-literal")
+		g.wherev[id] = true
+		g.line("a = sel3(a > -99999, func() int { c++; return c }(), 0) + y.WhereV(%d)", id)
+	case 1:
+		g.f("where:call-argument-after-literal")
+		g.wherev[id] = true
+		g.line("b += y.Apply(func(q int) int { return q + 1 }, y.WhereV(%d))", id)
+	default:
+		g.line("y.Where(%d)", id)
+	}
 }
 
 func (g *gen) sGoexit() {
@@ -1255,7 +1269,7 @@ func has(s, sub string) bool {
 
 // Generate draws one program.
 func Generate(r *rng.R, o Opts) *Program {
-	g := &gen{r: r, o: o, feat: map[string]int{}, wheres: map[int]int{}}
+	g := &gen{r: r, o: o, feat: map[string]int{}, wheres: map[int]int{}, wherev: map[int]bool{}}
 	g.b.WriteString(prelude)
 	g.lines = strings.Count(prelude, "\n")
 	for i := 0; i < o.Funcs; i++ {
@@ -1286,7 +1300,7 @@ func Generate(r *rng.R, o Opts) *Program {
 		}
 		return g.units[a].To-g.units[a].From > g.units[b].To-g.units[b].From
 	})
-	return &Program{Files: map[string]string{"main.go": g.b.String(), "go.mod": "module seqprog\n\ngo 1.20\n"}, Atoms: g.atom, Features: g.feat, Clean: o.Clean, Units: g.units, Wheres: g.wheres}
+	return &Program{Files: map[string]string{"main.go": g.b.String(), "go.mod": "module seqprog\n\ngo 1.20\n"}, Atoms: g.atom, Features: g.feat, Clean: o.Clean, Units: g.units, Wheres: g.wheres, WhereV: g.wherev}
 }
 
 func (p *Program) FeatureList() []string {
@@ -1354,7 +1368,7 @@ func main() {
 }
 `, o.Funcs, o.Funcs, o.Funcs)
 	return &Program{Files: map[string]string{"main.go": g.b.String(), "main_s.go": mainS, "main_m.go": mainM, "go.mod": "module seqprog\n\ngo 1.20\n"},
-		Atoms: g.atom, Features: g.feat, Clean: o.Clean, Units: g.units, Wheres: g.wheres}
+		Atoms: g.atom, Features: g.feat, Clean: o.Clean, Units: g.units, Wheres: g.wheres, WhereV: g.wherev}
 }
 
 // GenerateChains draws a program made of call chains main -> c1 -> ... -> ck -> yield atom, in which every link
